@@ -371,7 +371,7 @@ Theorem parse_version_112 first E bs tail p :
 Proof.
   intros Hg Hpn Ht Hpx Hrec. unfold rr_parse.
   rewrite (parse_record_entries V112 first empty_entries E bs tail Hg Hpn (compat_empty E) Ht Hrec).
-  unfold infer_version. rewrite fold_px_112; [reflexivity|].
+  unfold infer_version2. rewrite fold_px_112; [reflexivity|].
   left. exists p. unfold entries_list. rewrite Hpx. rewrite !in_app_iff. do 3 right. left. left. reflexivity.
 Qed.
 
